@@ -37,7 +37,9 @@ def definitions(repo, res):
     R = lambda name, forms, meaning: SP.returns_match(repo, res, 'SPEC', f'{SC}.{name}', forms, meaning)
     R('_cutout_segment_masks', ['[segm != label for label, segm in zip(self.labels, self._segment_img_cutouts, strict=True)]'],
       'per source: pixels of the bounding box that do not carry this source\'s label')
-    R('_cutout_data_masks', ['self._make_cutout_data_masks(self._data_cutouts, self._mask_cutouts)'], 'per source: non-finite data | input mask')
+    R('_cutout_data_masks', ['self._make_cutout_data_masks(self._data_cutouts, self._mask_cutouts)',
+                             '[self._make_cutout_data_mask(data_cutout, mask_cutout) for data_cutout, mask_cutout in '
+                             'zip(self._data_cutouts, self._mask_cutouts, strict=True)]'], 'per source: non-finite data | input mask')
     R('_all_masked', ['np.array([np.all(mask) for mask in self._cutout_total_masks])'], 'completely masked = every pixel of the TOTAL mask (other labels | mask | non-finite)')
     R('_data_values', ['self._get_values(self.data_ma)'], 'unmasked data values of the segment')
     R('_error_values', ['self._get_values(self.error_ma)'], 'unmasked error values of the segment')
